@@ -400,7 +400,45 @@ type scriptedActor struct {
 	sawPill   *int32
 }
 
+func (l *childLog) tracef(id, ev string) {
+	l.mu.Lock()
+	if l.trace == nil {
+		l.trace = map[string][]string{}
+	}
+	l.trace[id] = append(l.trace[id], ev)
+	l.mu.Unlock()
+}
+
+// checkChildNesting: every delivery to a child is enter0 enter1 recv exit1 exit0.
+func (l *childLog) checkNesting() string {
+	l.mu.Lock()
+	defer l.mu.Unlock()
+	for id, tr := range l.trace {
+		hasMW := false
+		for _, ev := range tr {
+			if strings.HasPrefix(ev, "enter") {
+				hasMW = true
+			}
+		}
+		if !hasMW {
+			return fmt.Sprintf("child %s: %d deliveries, none of them passed through its middleware chain", id, len(tr))
+		}
+		for i := 0; i < len(tr); i += 5 {
+			if i+5 > len(tr) {
+				return fmt.Sprintf("child %s: incomplete block at the end of its trace %v", id, tr[i:])
+			}
+			b := tr[i : i+5]
+			k := strings.TrimPrefix(b[0], "enter0:")
+			if !strings.HasPrefix(b[0], "enter0:") || b[1] != "enter1:"+k || b[2] != "recv:"+k || b[3] != "exit1" || b[4] != "exit0" {
+				return fmt.Sprintf("child %s: delivery not wrapped as enter0 enter1 recv exit1 exit0: %v", id, b)
+			}
+		}
+	}
+	return ""
+}
+
 type childLog struct {
+	trace   map[string][]string
 	mu      sync.Mutex
 	stopped map[string][]int64 // child id -> global seq of each Stopped
 	started map[string]int
@@ -427,7 +465,22 @@ func (a *scriptedActor) Receive(c *actor.Context) {
 		if a.inc == 1 && a.spec.Children > 0 {
 			for i := 0; i < a.spec.Children; i++ {
 				cl := a.children
-				c.SpawnChild(func() actor.Receiver { return &childActor{log: cl} }, "kid", actor.WithID(fmt.Sprint(i)))
+				kopts := []actor.OptFunc{actor.WithID(fmt.Sprint(i))}
+				if a.spec.MW > 0 {
+					// the children carry a two-layer chain of their own: their Stopped on the parent-shutdown path must pass through it
+					for l := 0; l < 2; l++ {
+						l := l
+						kopts = append(kopts, actor.WithMiddleware(func(next actor.ReceiveFunc) actor.ReceiveFunc {
+							return func(ctx *actor.Context) {
+								k, _ := describeMsg(ctx.Message())
+								cl.tracef(ctx.PID().ID, fmt.Sprintf("enter%d:%s", l, k))
+								defer cl.tracef(ctx.PID().ID, fmt.Sprintf("exit%d", l))
+								next(ctx)
+							}
+						}))
+					}
+				}
+				c.SpawnChild(func() actor.Receiver { return &childActor{log: cl} }, "kid", kopts...)
 			}
 		}
 		if a.startGate != nil {
@@ -467,6 +520,8 @@ type childActor struct {
 
 func (ch *childActor) Receive(c *actor.Context) {
 	id := c.PID().ID
+	k, _ := describeMsg(c.Message())
+	ch.log.tracef(id, "recv:"+k)
 	switch c.Message().(type) {
 	case actor.Started:
 		ch.log.mu.Lock()
@@ -770,13 +825,21 @@ func runScript(c *caseCtx, spec *scriptSpec) (out scriptOutcome) {
 			select {
 			case <-g.entered:
 				heldGate = g
-			case <-time.After(wd):
+			case <-time.After(wd / 2):
 				aborted = true
 				out.observed = rec.snapshot()
 				if d := diffLogs(model.log, out.observed, true); d != "" {
 					fail("stuck before gate %d and the deliveries so far deviate from the model: %s", last.ID, d)
 				} else {
-					res.inconclusive("gate %d was not reached within the watchdog; deliveries so far agree with the model (%d of %d)", last.ID, len(out.observed), len(model.log))
+					// decide on state: a probe sent now queues up behind everything sent so far; if it is
+					// delivered although the gate (sent before it) is not, messages have been lost
+					probe := &uMsg{Kind: itMsg, ID: -9}
+					e.Send(pid, probe)
+					if waitFor(wd/3, func() bool { return rec.has("msg", -9) }) {
+						fail("messages were lost: a probe sent afterwards was delivered, but gate %d and what was queued before it never were (deliveries so far %d of %d expected: %s)", last.ID, len(out.observed), len(model.log), tailStr(out.observed, 6))
+					} else {
+						res.inconclusive("gate %d was not reached within the watchdog; deliveries so far agree with the model (%d of %d)", last.ID, len(out.observed), len(model.log))
+					}
 				}
 			}
 		}
@@ -960,6 +1023,11 @@ func runScript(c *caseCtx, spec *scriptSpec) (out scriptOutcome) {
 	if spec.MW > 0 {
 		if d := checkNesting(out.all, spec.MW); d != "" {
 			fail("middleware: %s", d)
+		}
+		if spec.Children > 0 {
+			if d := kids.checkNesting(); d != "" {
+				fail("middleware of a child: %s", d)
+			}
 		}
 	}
 	// bystander still answers: the process and the engine are alive
